@@ -496,7 +496,9 @@ def wrap_walk(spec, ctx):
         eg = SV.SimpleEventgroup(svc, id=1)
         svc.register_eventgroup(eg)
         for i in range(nev):
-            eg.values[0x31 + i] = bytes([i, i])
+            # the second event is named by its full 16-bit wire id (0x8000 | id): the flag is OR-ed in, so both spellings mean
+            # the same notification
+            eg.values[(0x31 + i) | (0x8000 if i == 1 else 0)] = bytes([i, i])
         for ep in eps:
             eg.subscribe(ep)
         res.update(svc=svc, eg=eg)
